@@ -266,7 +266,11 @@ def wl_readonly(tier, seed):
                 out.append(gen.gen_readonly(seed * 1000 + 800 + i, idbase=i * IDSTEP, nb=nb, state=state, kt=gen.KTS[i % 5],
                                             nro=40 if tier == "quick" else 120, name="ro_%s%d_%s" % (nb[0][0], nb[1], state)))
                 i += 1
-    return [("readonly", out, dict(per_tlc=6, tlc_jobs=8, max_slots=300))]
+    # every third history in the profile without debug assertions
+    fast = out[2::3]
+    rest = [x for i, x in enumerate(out) if i % 3 != 2]
+    return [("readonly", rest, dict(per_tlc=6, tlc_jobs=8, max_slots=300)),
+            ("readonly_fast", fast, dict(per_tlc=6, tlc_jobs=8, max_slots=300, profile="fast"))]
 
 
 def wl_twice(tier, seed):
@@ -454,7 +458,11 @@ def _with_mix(pid, orig):
     def wl(tier, seed):
         cnt, nops = (4, 220) if tier == "quick" else (20, 400)
         mix = [gen.gen_mix(seed * 100000 + idx * 1000 + i, idbase=(1500 + i) * IDSTEP, nops=nops, name="mix_%d" % i) for i in range(cnt)]
-        return orig(tier, seed) + [("mix", mix, dict(per_tlc=1 if tier == "quick" else 5, tlc_jobs=4 if tier == "quick" else 8, max_slots=300))]
+        # half of them in the profile WITHOUT debug assertions (what a release user runs: a side effect hidden in a
+        # debug_assert! disappears there)
+        h = len(mix) // 2
+        o = dict(per_tlc=1 if tier == "quick" else 5, tlc_jobs=4 if tier == "quick" else 8, max_slots=300)
+        return orig(tier, seed) + [("mix", mix[:h], o), ("mix_fast", mix[h:], dict(o, profile="fast"))]
     return wl
 
 
